@@ -412,3 +412,8 @@ HARNESSES = [
             thorough=[dict(Q, n=1), dict(Q, n=2), dict(Q, n=3)]),
     Harness('cli', cli, quick=[Q]),
 ]
+# builds in a row in one process (shared with C13): packages of an earlier
+# build, or an earlier reading of a package file, must not reach a later cart
+from props import C13 as _C13
+HARNESSES.append(Harness('twice', _C13.twice, quick=[Q]))
+
